@@ -203,7 +203,10 @@ pub fn parse_pnm(input: impl IntoIterator<Item = u8>) -> Result<Buf2<Color3>> {
     let mut it = input.into_iter();
     let h = Header::parse(&mut it)?;
 
-    let count = h.dims.0 * h.dims.1;
+    // Must not overflow even if the dimensions are bogus
+    let count = (h.dims.0 as usize)
+        .checked_mul(h.dims.1 as usize)
+        .ok_or(InvalidNumber)?;
     let data: Vec<Color3> = match h.format {
         BinaryPixmap => {
             let mut col = [0u8; 3];
@@ -212,7 +215,7 @@ pub fn parse_pnm(input: impl IntoIterator<Item = u8>) -> Result<Buf2<Color3>> {
                     col[i] = c;
                     (i == 2).then(|| col.into())
                 })
-                .take(count as usize)
+                .take(count)
                 .collect()
         }
         BinaryGraymap => it //
@@ -237,7 +240,7 @@ pub fn parse_pnm(input: impl IntoIterator<Item = u8>) -> Result<Buf2<Color3>> {
                     };
                     (i == 2).then(|| Ok(col.into()))
                 })
-                .take(count as usize)
+                .take(count)
                 .collect::<Result<Vec<_>>>()?
         }
         TextGraymap => (0..count)
@@ -249,7 +252,7 @@ pub fn parse_pnm(input: impl IntoIterator<Item = u8>) -> Result<Buf2<Color3>> {
         _ => return Err(Unsupported((h.format as u16).to_be_bytes())),
     };
 
-    if data.len() < count as usize {
+    if data.len() < count {
         Err(UnexpectedEnd)
     } else {
         Ok(Buf2::new_from(h.dims, data))
